@@ -365,4 +365,103 @@ theorem loopHead_coh (P : Prog) : ∀ (fuel : Nat) (c : Cfg), Mid c → fuelOk P
           · rename_i hpa
             exact hbody (fun _ => hpa)
 
+
+theorem fuel0_ne : fuel0 = 999 + 1 := rfl
+
+theorem tickStepper_coh (P : Prog) (c : Cfg) (h : Coh c) (hf : tickFuelOk P c = true) : Coh (tickStepper P c) := by
+  have hpcok := h.pcOk
+  unfold PcOk at hpcok
+  unfold tickFuelOk at hf
+  unfold tickStepper
+  split
+  · rename_i hpc
+    simp only [hpc] at hpcok hf
+    exact loopHead_coh P _ c ⟨h.rob, h.inv, h.invP, hpcok, by intro e; rw [hpc]; intro g; cases g⟩ hf
+  · rename_i pf hpc
+    simp only [hpc] at hpcok hf
+    have hm : Mid c := ⟨h.rob, h.inv, h.invP, hpcok.1, by intro e; rw [hpc]; intro g; cases g⟩
+    have hbody : ∀ (hnp : terminal c.st.label = false → c.paused = none), Coh (stepBody P fuel0 c) := by
+      intro hnp
+      unfold stepBody
+      refine stepBodyK_coh P _ c hm hnp ?_
+      intro hs
+      apply loopHead_coh P _ _ (stepBody0_mid P c hm hnp hs)
+      simpa [hs] using hf
+    split
+    · split
+      · rename_i pf' hpa
+        split
+        · exact ⟨h.rob.congr rfl rfl rfl rfl rfl rfl rfl rfl, h.inv.same ⟨rfl, rfl, rfl⟩, h.invP.same ⟨rfl, rfl, rfl, rfl⟩,
+            by simp [PcOk]; exact ⟨hpcok.1, fun _ => Or.inr hpa⟩⟩
+        · rename_i hne
+          exact hbody (fun hl => absurd (h.invP.pausedPending hl pf' hpa) hne)
+      · rename_i hpa
+        exact hbody (fun _ => hpa)
+    · exact h
+  · rename_i b hpc
+    simp only [hpc] at hpcok hf
+    split
+    · rename_i hb
+      have key := finishUser_rsp c b.out h.rob hpcok.2
+      apply loopHead_coh P _ _ ⟨key.1, finishUser_inv _ _ h.inv, finishUser_invP _ _ h.invP, key.2.1,
+        by intro e; rw [key.2.2, hpc]; intro g; cases g⟩
+      simpa [hb] using hf
+    · exact ⟨h.rob.congr rfl rfl rfl rfl rfl rfl rfl rfl, h.inv.same ⟨rfl, rfl, rfl⟩, h.invP.same ⟨rfl, rfl, rfl, rfl⟩,
+        by simp [PcOk]; exact hpcok⟩
+  · rename_i wf hpc
+    simp only [hpc] at hpcok hf
+    split
+    · exact h
+    · rename_i w hnp hw
+      have hne : w ≠ .pending := by intro g; exact hnp g
+      have hwf : ∀ wf', wfOf c.st = some wf' → wf' = wf := by
+        intro wf' h1
+        rcases hpcok.2 with g | g
+        · rw [wfOf_none_of_terminal g] at h1; cases h1
+        · rw [g] at h1; cases h1; rfl
+      have hf' : fuelOk P fuel0 (wake c (wakeFn c) wf w) = true := by
+        rw [hw] at hf
+        cases w <;> first | exact absurd rfl hne | exact hf
+      have key := wake_rsp c (wakeFn c) wf w h.rob hw hne hwf
+      show Coh (loopHead P fuel0 (wake c (wakeFn c) wf w))
+      exact loopHead_coh P _ _ ⟨key.1, wake_inv _ _ _ _ h.inv, wake_invP _ _ _ _ h.invP, key.2.1,
+        by intro e; rw [key.2.2, hpc]; intro g; cases g⟩ hf'
+    · exact h
+  · exact h
+
+/-- every event keeps the coherence invariant, provided a callback of the stepping task does not run out of fuel -/
+theorem step_coh (P : Prog) (c : Cfg) (ev : Ev) (h : Coh c) (hf : ev = .tick → tickFuelOk P c = true) :
+    Coh (step P c ev).1 := by
+  cases ev <;> simp only [step]
+  · exact tickStepper_coh P c h (hf rfl)
+  · exact tickCb_coh c _ h
+  · exact pause_coh c h
+  · exact play_coh c h
+  · exact kill_coh c h
+  · exact resume_coh c _ h
+  · exact fail_coh c _ h
+  · exact cancelFut_coh c h
+  · exact complete_coh c _ _ h
+  · exact h.same ⟨rfl, rfl, rfl, rfl, rfl, rfl, rfl, rfl, rfl, rfl, rfl, rfl, rfl, rfl, rfl⟩
+
+theorem run_coh (P : Prog) (c0 : Cfg) (evs : List Ev) (h : Coh c0) (hf : histFuelOk P c0 evs = true) :
+    Coh (run P c0 evs) := by
+  induction evs generalizing c0 with
+  | nil => exact h
+  | cons e es ih =>
+    unfold histFuelOk at hf
+    rw [Bool.and_eq_true] at hf
+    exact ih _ (step_coh P c0 e h (by intro he; subst he; exact hf.1)) hf.2
+
+theorem histFuelOk_append (P : Prog) (c0 : Cfg) (es1 es2 : List Ev) :
+    histFuelOk P c0 (es1 ++ es2) = (histFuelOk P c0 es1 && histFuelOk P (run P c0 es1) es2) := by
+  induction es1 generalizing c0 with
+  | nil => simp [histFuelOk, run]
+  | cons e es ih =>
+    simp only [List.cons_append, histFuelOk, ih, Bool.and_assoc]
+    rfl
+
+theorem run_append (P : Prog) (c0 : Cfg) (es1 es2 : List Ev) : run P c0 (es1 ++ es2) = run P (run P c0 es1) es2 := by
+  simp [run, List.foldl_append]
+
 end PMF.H6
